@@ -11,6 +11,7 @@ EXPLANATION = ("C15: (R1) the line-terminator protocol of get_line (scan predica
 NOT_DECIDED = "that line i equals the i-th piece of the text as a value-level statement."
 
 RULES = {
+    "C15.RG": lambda ctx: __import__("rules.foundations", fromlist=["x"]).no_global_state(ctx, "C15.RG"),
     "C15.R6": lambda ctx: __import__("rules.foundations", fromlist=["x"]).iterator_overrides(ctx, "C15.R6"),
     "C15.RL": lambda ctx: __import__("rules.common", fromlist=["x"]).loop_exit_rule(ctx, "C15.RL", {'sourceview::SourceView::get_line': 1, 'sourceview::SourceView::get_line_slice': 3}),
     "C15.R1": svrules.c15_r1_protocol,
